@@ -4,7 +4,7 @@ from .. import env, attach, gen, flow
 from ..mon_output import mon_balance_output, mon_balance_raw
 
 PROPERTY = 'C01'
-CASES = {'quick': 168, 'thorough': 3000}
+CASES = {'quick': 504, 'thorough': 4032}
 BUDGET_S = {'quick': 200, 'thorough': 1800}
 SUITE_UNDER_MONITORS = True      # thorough tier: the repository's own tests are an extra workload under the passive monitors
 RULE = ('case = one random multi-node portfolio (transports with efficiency, multi-commodity factors, CHP/Plant with fuel node, coarse-frequency '
@@ -14,7 +14,7 @@ RULE = ('case = one random multi-node portfolio (transports with efficiency, mul
         'return (incl. renamed internal nodes of structured assets). Non-trivial: >=1 (node, step) with >=2 assets carrying |flow|>1e-6; '
         'distinct = distinct spec hashes.')
 ASSUMPTIONS = ['tolerance 1e-6*(1+max|dispatch|)', 'results flagged inaccurate or infeasible portfolios make no claim (counted)']
-MIN_NONVACUOUS = {'quick': {'balance.output': 80, 'balance.raw': 100, 'balance.raw_internal_nodes': 8},
+MIN_NONVACUOUS = {'quick': {'balance.output': 200, 'balance.raw': 250, 'balance.raw_internal_nodes': 20},
                   'thorough': {'balance.output': 1500, 'balance.raw': 2000, 'balance.raw_internal_nodes': 150}}
 KINDS = ('contract', 'transport', 'transport', 'storage', 'multi', 'multi', 'orderbook', 'plant', 'chp', 'structured', 'structured', 'coarse', 'coarse',
          'periodic', 'storage_blocks', 'scaled')
